@@ -331,14 +331,50 @@ def _inline_fn(an, g: FunctionInfo, depth):
 
 
 def find_args_decoder(an: Analysis) -> FunctionInfo:
+    """The function that builds Args from the variable names: among the functions of the decode closure that construct Args, the one that
+    passes keyword arguments (a bare `Args()` is not a decoder)."""
     it, _ = an.interp("from_code")
-    args_objs = it.ctor_sites.get("code_data::Args", set())
-    for o in args_objs:
-        site = o[1]
-        for f in an.closure("from_code"):
-            if f.module.name == site[0] and f.node.lineno <= site[1] <= f.node.end_lineno:
-                return f
-    raise AnalysisError("decoder of Args (constructor call of Args in the from_code closure) not found")
+    cands = []
+    for f in an.closure("from_code"):
+        for c in ast.walk(f.node):
+            if isinstance(c, ast.Call) and isinstance(c.func, ast.Name) and c.func.id == "Args" and (c.keywords or c.args):
+                r = an.prog.resolve_global(f.module, "Args", f)
+                if r and r[0] == "class" and r[1].qual == "code_data::Args":
+                    cands.append(f)
+    cands = list(dict.fromkeys(cands))
+    if len(cands) == 1:
+        return cands[0]
+    raise AnalysisError(f"decoder of Args (a call Args(field=...) in the from_code closure) not found uniquely: {[f.qual for f in cands]}")
+
+
+def r041_unconditional(an, rep):
+    """The arguments of every function-like code object go through the decoder: `*args` / `**kwargs` are not counted in co_argcount /
+    co_kwonlyargcount, so a shortcut on the counts loses them; any Args value in the decoded data comes from the decoder."""
+    fn = find_args_decoder(an)
+    it, _ = an.interp("from_code")
+    from .encode_model import guards_of
+    n = 0
+    for f in an.closure("from_code"):
+        for c in ast.walk(f.node):
+            if isinstance(c, ast.Call) and fn.qual in it.callees.get(id(c), ()):
+                n += 1
+                st = c
+                from .encode_model import parent_map
+                pm = parent_map(f.module)
+                while id(st) in pm and not isinstance(st, ast.stmt):
+                    st = pm[id(st)]
+                gs = [g for g, pos in guards_of(f.module, f, st) if not any(isinstance(x, ast.Attribute) and x.attr == "version_info" for x in ast.walk(g))]
+                rep.add("R04.1", f"{f.qual}::{fn.name} is called for every code object", not gs, loc(f.module, c),
+                        f"`{norm_src(c)[:50]}` is unconditional" if not gs else
+                        f"the signature is decoded only when `{norm_src(gs[0])}`: a function whose only parameters are *args / **kwargs (not counted in co_argcount / co_kwonlyargcount) "
+                        f"decodes with no parameters at all")
+            if isinstance(c, ast.Call) and isinstance(c.func, ast.Name) and c.func.id == "Args" and not c.args and not c.keywords and f is not fn:
+                r = an.prog.resolve_global(f.module, "Args", f)
+                if r and r[0] == "class" and r[1].qual == "code_data::Args":
+                    rep.add("R04.1", f"{f.qual}::no empty Args() in the decoder", False, loc(f.module, c),
+                            f"`{norm_src(c)}` puts an empty signature into the decoded data without looking at co_varnames / the VARARGS and VARKEYWORDS flags")
+    if n == 0:
+        raise AnalysisError(f"no call of {fn.qual} found in the decode closure")
 
 
 def run(an: Analysis, rep):
@@ -360,7 +396,10 @@ def run(an: Analysis, rep):
     rep.rule("R04.7", "len(args)", 1)
     from .common import purity
     rep.run(purity, an, rep, "R04.P", ["from_code", "parameters", "args_len"])
-    for fn in (r041, r042, r043, r044, r045, r046, r046_kind, r047):
+    from .common import field_rewrite_rule, substring_rule
+    rep.run(field_rewrite_rule, an, rep, "R04.8")
+    rep.run(substring_rule, an, rep, "R04.9", ["parameters", "args_len"])
+    for fn in (r041, r041_unconditional, r042, r043, r044, r045, r046, r046_kind, r047):
         rep.run(fn, an, rep)
     from .common import SharedRules
     from . import c11
